@@ -31,7 +31,10 @@ type Line struct {
 type Proc struct {
 	NIn, NOut, NReg int
 	Entry           string
-	Lines           []Line
+	// EntryPos: where the `entry` directive is written: 0 first line of the section (the usual
+	// spelling), 1 directly in front of the label it names, 2 last line of the section (after the label)
+	EntryPos int
+	Lines    []Line
 }
 
 type Macro struct {
@@ -190,6 +193,9 @@ func Generate(t *simrt.Tape, o Options) *Src {
 			p.Entry = label(1 + t.Draw(nb-1))
 			s.EntryNotFirst = true
 		}
+		if o.EntryAnywhere && t.Draw(4) == 1 {
+			p.EntryPos = 1 + t.Draw(2)
+		}
 		s.Procs = append(s.Procs, p)
 	}
 	return s
@@ -255,12 +261,25 @@ func (s *Src) BASM() string {
 		fmt.Fprintf(&b, "%%endmacro\n\n")
 	}
 	for c, p := range s.Procs {
-		fmt.Fprintf(&b, "%%section code%d .romtext iomode:sync\n\tentry %s\n", c, p.Entry)
+		fmt.Fprintf(&b, "%%section code%d .romtext iomode:sync\n", c)
+		if p.EntryPos == 0 {
+			fmt.Fprintf(&b, "\tentry %s\n", p.Entry)
+		}
 		for _, l := range p.Lines {
+			if p.EntryPos == 1 {
+				for _, lb := range l.Labels {
+					if lb == p.Entry {
+						fmt.Fprintf(&b, "\tentry %s\n", p.Entry)
+					}
+				}
+			}
 			for _, lb := range l.Labels {
 				fmt.Fprintf(&b, "%s:\n", lb)
 			}
 			fmt.Fprintf(&b, "\t%s\n", lineBASM(l))
+		}
+		if p.EntryPos == 2 {
+			fmt.Fprintf(&b, "\tentry %s\n", p.Entry)
 		}
 		fmt.Fprintf(&b, "%%endsection\n\n")
 	}
